@@ -19,15 +19,15 @@ type Param struct {
 type Tmpl struct {
 	Params []Param `json:"params"`
 	Body   []Cmd   `json:"body"`
-	NsA    string  `json:"nsa"` // namespace autoescape attribute ("" = unspecified)
-	TA     string  `json:"ta"`  // template autoescape attribute
+	NsA    string  `json:"nsa"`  // namespace autoescape attribute ("" = unspecified)
+	TA     string  `json:"ta"`   // template autoescape attribute
 	Both   bool    `json:"both"` // declare the first param in soydoc AND the rest as header params (invalid Soy)
 	// unparse-only fields
-	Hdr     bool `json:"-"` // declare params with {@param} instead of soydoc
+	Hdr bool `json:"-"` // declare params with {@param} instead of soydoc
 	// HdrDefault spells required header params with a default value
 	// ({@param x: any = 1}); the implementation parses and ignores it.
 	HdrDefault bool `json:"-"`
-	Private bool `json:"-"`
+	Private    bool `json:"-"`
 }
 
 // Program is a bundle plus the entry point and its inputs.
